@@ -32,8 +32,57 @@ import (
 //                              disk-changing transitions completed so far;
 //   - core.Transition       -> applies the change to the model disk or not.
 //
-// The model disk is one byte of content.  The controller's belief is the
-// content it was last told (snapshot returned by Scan, result of Transition).
+// The model disk is either one file with one byte of content or a directory
+// with up to two child files "a" and "b" (one byte of content each); the
+// structure is concrete, the bytes are symbolic.  The controller's belief is
+// the content it was last told (snapshot returned by Scan, result of
+// Transition).  A transition of a directory replaces it by a file; it may be
+// applied completely, not at all, or PARTLY: some children are removed and the
+// directory survives, so the result is a sub-tree of Old that differs from Old
+// only below the top level.
+
+// verifC42Disk: dir, a, b are always concrete; content, ca, cb symbolic.
+type verifC42Disk struct {
+	dir     bool
+	content byte // file content (when !dir)
+	a, b    bool // children present (when dir)
+	ca, cb  byte // children contents
+}
+
+// verifC42Same is the model's own comparison of two disk states (one term).
+func verifC42Same(x, y verifC42Disk) bool {
+	if x.dir != y.dir {
+		return false
+	}
+	if !x.dir {
+		return x.content == y.content
+	}
+	if x.a != y.a || x.b != y.b {
+		return false
+	}
+	r := true
+	if x.a {
+		r = vAnd(r, x.ca == y.ca)
+	}
+	if x.b {
+		r = vAnd(r, x.cb == y.cb)
+	}
+	return r
+}
+
+func verifC42Entry(d verifC42Disk) *core.Entry {
+	if !d.dir {
+		return verifC42Content(d.content)
+	}
+	contents := make(map[string]*core.Entry)
+	if d.a {
+		contents["a"] = verifC42Content(d.ca)
+	}
+	if d.b {
+		contents["b"] = verifC42Content(d.cb)
+	}
+	return &core.Entry{Kind: core.EntryKind_Directory, Contents: contents}
+}
 
 type verifC42Ctx struct{ done chan struct{} }
 
@@ -44,7 +93,7 @@ func (c *verifC42Ctx) Value(key any) any           { return nil }
 
 type verifC42Tag struct {
 	snapshot *core.Snapshot
-	content  byte
+	content  verifC42Disk
 	version  int
 }
 
@@ -52,8 +101,14 @@ type verifC42World struct {
 	e   *endpoint
 	ctx *verifC42Ctx
 
-	disk    byte // content on disk now
-	version int  // number of disk-changing transitions completed
+	disk    verifC42Disk // content on disk now
+	version int          // number of disk-changing transitions completed
+
+	// the disk before the last disk-changing transition of a directory (for
+	// external reversals of structural changes)
+	prev      verifC42Disk
+	prevValid bool
+	planned   verifC42Disk // New of the transition being made
 
 	tags []verifC42Tag
 
@@ -67,11 +122,11 @@ type verifC42World struct {
 	iterations      int // iterations whose scan has been made
 	checked         int // iterations already judged
 	lastPollOK      bool
-	lastPollContent byte
+	lastPollContent verifC42Disk
 
 	// controller
 	haveBelief bool
-	belief     byte
+	belief     verifC42Disk
 	pending    bool // pollSignal strobed since the belief was last refreshed
 	strobes    int
 	maxOps     int
@@ -132,7 +187,7 @@ func verifC42CoreScan(
 		w.lastPollOK = true
 		w.lastPollContent = w.disk
 	}
-	s := &core.Snapshot{Content: verifC42Content(w.disk)}
+	s := &core.Snapshot{Content: verifC42Entry(w.disk)}
 	w.tag(s)
 	return s, &core.Cache{}, nil, nil
 }
@@ -174,19 +229,74 @@ func verifC42CoreTransition(
 	for t, transition := range transitions {
 		results[t] = transition.Old
 	}
+	if len(transitions) != 1 || w.disk.dir != w.belief.dir {
+		// what is on disk is not the kind of thing the controller wants to
+		// replace: the just-in-time checks refuse the change
+		vCover("transition changed nothing")
+		return results, nil, false
+	}
+	old := w.belief
+	// outcome: 0 nothing, 1 complete, 2 one child removed and the directory
+	// survives, 3 every child removed and the directory survives
+	outcomes := 2
+	if old.dir && (old.a || old.b) {
+		outcomes = 3
+		if old.a && old.b {
+			outcomes = 4
+		}
+	}
 	vLabel("the transition is applied")
-	applied := vBool()
+	outcome := 0
+	if outcomes == 2 {
+		if vBool() {
+			outcome = 1
+		}
+	} else {
+		outcome = vChoose(outcomes)
+	}
 	vLabel("")
-	if applied && len(transitions) == 1 {
+	if outcome == 0 {
+		vCover("transition changed nothing")
+		return results, nil, false
+	}
+	if w.disk.dir {
+		w.prev, w.prevValid = w.disk, true
+	} else {
+		w.prevValid = false
+	}
+	if outcome == 1 {
 		vCover("transition changed the disk")
-		w.disk = transitions[0].New.Digest[0]
-		w.version++
-		w.belief = w.disk
-		w.pending = false
+		if old.dir {
+			vNote("the transition replaces the directory completely")
+		}
+		w.disk = w.planned
+		w.belief = w.planned
 		results[0] = transitions[0].New
 	} else {
-		vCover("transition changed nothing")
+		// Part of the directory is removed, the directory itself stays (it
+		// holds content the scan did not know, or a child was modified): the
+		// result is Old without the removed children.
+		vCover("directory removal partly applied: the result is a sub-tree of Old")
+		if outcome == 3 {
+			vNote("the transition removes every child but not the directory")
+		} else {
+			vNote("the transition removes one child and leaves the rest of the directory")
+		}
+		remaining := old
+		if outcome == 3 {
+			remaining.a, remaining.b = false, false
+		} else if remaining.b {
+			remaining.b = false
+		} else {
+			remaining.a = false
+		}
+		w.disk.a = w.disk.a && remaining.a
+		w.disk.b = w.disk.b && remaining.b
+		w.belief = remaining
+		results[0] = verifC42Entry(remaining)
 	}
+	w.version++
+	w.pending = false
 	return results, nil, false
 }
 
@@ -235,7 +345,7 @@ func (w *verifC42World) judge() {
 	}
 	vCover("polling interval judged")
 	if !w.pending {
-		vAssert(w.lastPollContent == w.belief, "at the end of a polling interval the controller either knows the disk content or a change notification is pending")
+		vAssert(verifC42Same(w.lastPollContent, w.belief), "at the end of a polling interval the controller either knows the disk content or a change notification is pending")
 	} else {
 		vCover("notification pending")
 	}
@@ -258,7 +368,7 @@ func (w *verifC42World) controllerScan() {
 		return
 	}
 	vAssert(t.version == w.version, "a scan after a transition that changed the disk never returns a snapshot from before that transition")
-	if t.content != w.disk {
+	if !verifC42Same(t.content, w.disk) {
 		vCover("scan served a snapshot older than an external edit")
 	} else {
 		vCover("scan served the current content")
@@ -273,8 +383,14 @@ func (w *verifC42World) controllerTransition() {
 	vLabel("content the transition writes")
 	nb := vU8()
 	vLabel("")
-	vAssume(nb != w.belief)
-	change := &core.Change{Path: "", Old: verifC42Content(w.belief), New: verifC42Content(nb)}
+	if w.belief.dir {
+		// a directory is replaced by a file
+		vCover("transition of a directory")
+	} else {
+		vAssume(nb != w.belief.content)
+	}
+	w.planned = verifC42Disk{content: nb}
+	change := &core.Change{Path: "", Old: verifC42Entry(w.belief), New: verifC42Entry(w.planned)}
 	_, _, _, err := e.Transition(context.Background(), []*core.Change{change})
 	vAssert(len(e.scanLock) == 1, "the scan lock is released when Transition returns")
 	if err != nil {
@@ -284,7 +400,11 @@ func (w *verifC42World) controllerTransition() {
 
 func (w *verifC42World) controller() {
 	for op := 0; op < w.maxOps; op++ {
-		switch vChoose(4) {
+		choices := 4
+		if w.prevValid {
+			choices = 5
+		}
+		switch vChoose(choices) {
 		case 0:
 			return
 		case 1:
@@ -299,9 +419,19 @@ func (w *verifC42World) controller() {
 		case 3:
 			vNote("external edit")
 			vLabel("content after the external edit")
-			w.disk = vU8()
+			if w.disk.dir {
+				w.disk.ca, w.disk.cb = vU8(), vU8()
+			} else {
+				w.disk.content = vU8()
+			}
 			vLabel("")
 			vCover("external edit")
+		case 4:
+			// the user puts back what the last transition of a directory removed
+			vNote("external reversal")
+			w.disk = w.prev
+			w.prevValid = false
+			vCover("external reversal of a directory transition")
 		}
 	}
 }
@@ -346,7 +476,14 @@ func VerifC42() {
 	w.ctx = &verifC42Ctx{done: make(chan struct{})}
 
 	vLabel("initial content")
-	w.disk = vU8()
+	if vChoose(2) == 1 {
+		vCover("directory on the model disk")
+		vNote("the root is a directory with children a and b")
+		w.disk = verifC42Disk{dir: true, a: true, b: true, ca: vU8(), cb: vU8()}
+		w.maxOps = vParam("dirops", 2)
+	} else {
+		w.disk = verifC42Disk{content: vU8()}
+	}
 	vLabel("scan acceleration allowed")
 	allowed := vBool()
 	vLabel("")
